@@ -292,8 +292,18 @@ def call(name, a):
     if name == "ArrayContains":
         if not isinstance(a[0], list):
             raise IFail("")
-        return any(type(x) == type(a[1]) and canon(x) == canon(a[1]) for x in a[0]) or \
-            any(R.is_num(x) and R.is_num(a[1]) and x == a[1] for x in a[0])
+        def jeq(u, v):
+            """JSON value equality: numbers by value (1 == 1.0), booleans are not numbers, containers member-wise."""
+            if isinstance(u, bool) or isinstance(v, bool):
+                return isinstance(u, bool) and isinstance(v, bool) and u == v
+            if R.is_num(u) and R.is_num(v):
+                return u == v
+            if isinstance(u, list) and isinstance(v, list):
+                return len(u) == len(v) and all(jeq(x, y) for x, y in zip(u, v))
+            if isinstance(u, dict) and isinstance(v, dict):
+                return set(u) == set(v) and all(jeq(u[k], v[k]) for k in u)
+            return type(u) == type(v) and u == v
+        return any(jeq(x, a[1]) for x in a[0])
     if name == "ArrayRange":
         if not all(is_int(x) for x in a) or a[2] == 0:
             raise IFail("")
